@@ -326,6 +326,54 @@ theorem noIndentedCodeFrom_escText (s : Bytes) :
         · simp only [hel, Bool.false_eq_true, if_false]
           exact ih _ _ _ _ _ hnt' (by simp)
 
+/-! ### allowHTML mode on input without `<` and `&` -/
+
+/-- no `<` and no `&` -/
+def noLtAmp : Bytes → Bool
+  | [] => true
+  | c :: rest => c != 60 && c != 38 && noLtAmp rest
+
+/-- no `<` -/
+def noLt : Bytes → Bool
+  | [] => true
+  | c :: rest => c != 60 && noLt rest
+
+/-- what `markdownEscape(s, true)` is meant to write for `s` without `<`: as in text mode, but an
+`&` passes through (character references of the HTML value stay character references) -/
+def escAmpThrough : Bool → Bytes → Bytes
+  | _, [] => []
+  | first, c :: rest =>
+    (if c == 38 then [c] else pieceText first c rest) ++ escAmpThrough false rest
+
+theorem escHTML_noLtAmp (s : Bytes) :
+    ∀ fuel first esc, s.length < fuel → noLtAmp s = true →
+      escHTML fuel first esc s = .ok (escText first s) := by
+  induction s with
+  | nil => intro fuel first esc _ _; cases fuel <;> simp [escHTML, escText]
+  | cons c rest ih =>
+    intro fuel first esc hf hn
+    simp only [noLtAmp, Bool.and_eq_true, bne_iff_ne, ne_eq] at hn
+    obtain ⟨⟨h60, h38⟩, hrest⟩ := hn
+    have h60' : (c == 60) = false := by simpa using h60
+    have h38' : (c == 38) = false := by simpa using h38
+    cases fuel with
+    | zero => simp at hf
+    | succ fuel =>
+      have hf' : rest.length < fuel := by simp at hf; omega
+      rw [escText_cons]
+      unfold escHTML pieceText escapedText
+      simp only [h60', h38', Bool.false_eq_true, if_false, Bool.false_or, Bool.or_false]
+      by_cases hs : slashCase c = true
+      · simp only [hs, if_true, ih fuel false slash hf' hrest]
+        simp [slash]
+      · simp only [hs, Bool.false_eq_true, if_false]
+        by_cases hsp : MarkdownEscape.isSpTab c = true
+        · simp only [hsp, if_true]
+          by_cases hk : keepSpace first rest = true
+          · simp only [hk, if_true, ih fuel false esc hf' hrest]; simp
+          · simp only [hk, Bool.false_eq_true, if_false, ih fuel false nbsp hf' hrest]
+        · simp only [hsp, Bool.false_eq_true, if_false, ih fuel false esc hf' hrest]; simp
+
 /-! ### code block: every line ending is followed by the indentation -/
 
 /-- the input class of the partial theorem: every CR is directly followed by LF, or directly
